@@ -231,8 +231,13 @@ func Check[C any](t *testing.T, p Prop[C]) {
 			t.Logf("last (minimal) failing case:\n%s", lastFail)
 		}
 	})
+	journal := os.Getenv("VERIF_JOURNAL") != "" && os.Getenv("VERIF_FAIL_DIR") != ""
 	rapid.Check(t, func(rt *rapid.T) {
 		c := p.Gen(rt)
+		if journal {
+			// write-ahead: if a library goroutine panics, the process dies and this file is the replay
+			writeJournal(p, c)
+		}
 		r := safeRun(p.Run, c)
 		record(p, c, r)
 		if r.Fail != "" {
@@ -352,4 +357,14 @@ func AddEvaluations[C any](p Prop[C], n int) {
 	mu.Lock()
 	defer mu.Unlock()
 	getStats(p.full()).Evaluations += n
+}
+
+func writeJournal[C any](p Prop[C], c C) {
+	dir := os.Getenv("VERIF_FAIL_DIR")
+	_ = os.MkdirAll(dir, 0o755)
+	cb, _ := json.Marshal(c)
+	sc := savedCase{Property: p.ID, Prop: p.full(), Case: cb, Fail: "the process crashed while running this case (see the crash output next to this file)", Seed: os.Getenv("VERIF_SHARD_SEED")}
+	b, _ := json.Marshal(sc)
+	_ = os.WriteFile(filepath.Join(dir, "journal.json.tmp"), b, 0o644)
+	_ = os.Rename(filepath.Join(dir, "journal.json.tmp"), filepath.Join(dir, "zz-journal.json"))
 }
